@@ -573,6 +573,11 @@ class IH5Group(IH5InnerNode):
         # remove "deleted" marker, if set at current path in current patch container
         if path in self._files[-1] and _node_is_del_mark(self._files[-1][path]):
             del self._files[-1][path]
+        # nested creation: the first missing ancestor must become a proper (overwrite)
+        # group first - it may be hidden behind a deletion marker in the current patch
+        missing_segs = [s for s in nodes[-1]._rel_path(path).split("/") if s]
+        if len(missing_segs) > 1:
+            self.create_group(f"{nodes[-1]._gpath.rstrip('/')}/{missing_segs[0]}")
         # create group (or fail if something else exists there already)
         self._files[-1].create_group(path)
         # if this is a patch: mark as non-virtual, i.e. "overwrite" with empty group
